@@ -236,7 +236,83 @@ def run(ctx):
         if ml is not None and ml != "ok " + got:
             s2.disagree(case, "ok " + got, ml)
     streams.append(s2)
+    streams.append(import_history_stream(ctx))
     return streams
+
+
+_CHILD = r"""
+import sys, json, importlib, pkgutil
+sys.path.insert(0, %(src)r)
+import logging; logging.disable(logging.CRITICAL)
+first, headers = json.loads(sys.stdin.read())
+for name in first:
+    importlib.import_module("senaite.astm.instruments." + name)
+from senaite.astm import wrapper
+picked = []
+for h in headers:
+    picked.append(wrapper.Wrapper([bytes.fromhex(h)]).mapping)
+    # the same header once more, after the others: same answer
+second = [wrapper.Wrapper([bytes.fromhex(h)]).mapping for h in headers]
+from senaite.astm import instruments
+mods = {}
+for _, modname, _ in pkgutil.iter_modules(instruments.__path__, instruments.__name__ + "."):
+    mods[modname.rsplit(".", 1)[-1]] = importlib.import_module(modname)
+def name_of(mp):
+    if mp is wrapper.DEFAULT_MAPPING:
+        return "generic"
+    for n, m in mods.items():
+        ref = m.get_mapping()
+        if set(ref) == set(mp) and all(ref[k] is mp[k] for k in ref):
+            return n
+    return "unknown-mapping"
+print(json.dumps([[name_of(a), name_of(b)] for a, b in zip(picked, second)]))
+"""
+
+
+def import_history_stream(ctx):
+    """"regardless of ... the order in which instrument modules are discovered" at process level: in fresh interpreters a
+    few instrument modules are imported on their own (as a consumer using their constants would do) before the first
+    message is wrapped; every documented model must still select its own module"""
+    import json
+    import os
+    import subprocess
+    import sys
+    st = Stream("import-history")
+    r = ctx.rng("C17.imports")
+    toks = tokens()
+    names = sorted(toks)
+    scenarios = [[]] + [[n] for n in (names if ctx.thorough else r.sample(names, 2))]
+    scenarios.append(r.sample(names, 2))
+    scenarios.append(r.sample(names, max(1, len(names) - 1)))
+    cases = []
+    for name, spec in toks.items():
+        for t in (spec["tokens"] if ctx.thorough else [spec["tokens"][0], spec["tokens"][-1]]):
+            fr, _ = header(r, spec, t)
+            if expected_module(fr.decode("latin-1")) == name:
+                cases.append((fr, name))
+    fr, _ = header(r)
+    if expected_module(fr.decode("latin-1")) == "generic":
+        cases.append((fr, "generic"))
+    src = os.path.join(os.environ.get("VERIF_REPO", "/repo"), "src")
+    for first in scenarios:
+        p = subprocess.run([sys.executable, "-c", _CHILD % {"src": src}], input=json.dumps([first, [hexb(fr) for fr, _ in cases]]),
+                           stdout=subprocess.PIPE, stderr=subprocess.PIPE, text=True, timeout=120)
+        case0 = {"imported_first": first}
+        if p.returncode != 0:
+            st.case(case0)
+            st.fail(dict(case0, stderr=p.stderr[-400:]), "selecting schemas in a fresh process in which %s was imported first fails"
+                    % (first or "nothing"), "import-history/raises")
+            continue
+        got = json.loads(p.stdout.strip().splitlines()[-1])
+        for (fr, exp), (g1, g2) in zip(cases, got):
+            case = dict(case0, header=hexb(fr), named=exp)
+            st.case(case)
+            st.count("first=%d" % len(first))
+            if g1 != exp or g2 != exp:
+                st.fail(dict(case, selected=[g1, g2]), "in a process that imported %s first, a header naming %s selects %s (asked again: %s)"
+                        % (first or "nothing", exp, g1, g2), "import-history/wrong-module")
+                break
+    return st
 
 
 def search(ctx, disagreements):
@@ -286,5 +362,15 @@ def replay(payload):
         exp = expected_module(fr.decode("latin-1"))
         print("selected=%s expected=%s" % (got, exp))
         return 1 if exp is not None and got != exp else 0
+    if "imported_first" in c and "header" in c:
+        import json, os, subprocess, sys
+        src = os.path.join(os.environ.get("VERIF_REPO", "/repo"), "src")
+        p = subprocess.run([sys.executable, "-c", _CHILD % {"src": src}], input=json.dumps([c["imported_first"], [c["header"]]]),
+                           stdout=subprocess.PIPE, stderr=subprocess.PIPE, text=True, timeout=120)
+        print(p.stdout.strip(), p.stderr[-300:])
+        if p.returncode != 0:
+            return 1
+        g = json.loads(p.stdout.strip().splitlines()[-1])[0]
+        return 1 if g[0] != c["named"] or g[1] != c["named"] else 0
     print(c)
     return 0
